@@ -49,6 +49,8 @@ def tasks(tier):
         ts.append(Task('props.C02:t_kernel', name='C02/kernel.' + fname, relpath=relpath, fname=fname, timeout=1200))
     for K, fz in ((1, ()), (2, ()), (2, (1,)), (3, ()), (3, (2,)), (4, ()), (4, (4,)), (5, ()), (5, (3,))):
         ts.append(Task('props.wire:run', name='C02/wire.driver-step.%d.%s' % (K, ''.join(map(str, fz)) or 'none'), fname='c02_driver_step', kwargs=dict(K=K, frozen=fz), timeout=600))
+    for n in (4, 5):
+        ts.append(Task('props.wire:run', name='C02/wire.const-1d.%d' % n, fname='c02_const_1d', kwargs=dict(n=n), timeout=600))
     ts.append(Task('props.C02:t_pyx', name='C02/pyx-argument-order', timeout=120))
     ts += bounded_tasks('C02', tier)
     return ts
